@@ -101,7 +101,7 @@ def programs(tier):
   out += [("pserr:%s/%s" % (c, t[0]), c03.render(c, (t[0],))) for c in ctxs for t in c03.TEMPLATES]
   # annotation x value programs (C02): dozens of errors whose messages print unions, Literals, classes
   anns = c02.annotations("quick")
-  anns = (anns[::8] if tier == "quick" else anns) + c02.LITERAL_ANNOTATIONS
+  anns = (anns[::8] if tier == "quick" else anns[::3]) + c02.LITERAL_ANNOTATIONS
   out += [("c02:" + a, c02.build_program(a)[0]) for a in anns]
   # definition-rich programs (PS-def)
   dps = defspace.programs("quick")
@@ -116,7 +116,7 @@ def programs(tier):
   if tier == "quick":
     ps = ps[::4]
   else:
-    ps = ps + progspace.programs("quick")[100::6]
+    ps = ps + progspace.programs("quick")[100::12]
   out += [(i, src) for i, src, _ in ps]
   seen, res = set(), []
   for i, src in out:
